@@ -1110,7 +1110,12 @@ class AttrParser(BaseParser):
 
         # Empty array
         if self.parse_optional_punctuation(">"):
-            return DenseArrayBase.from_list(element_type, [])
+            try:
+                return DenseArrayBase.from_list(element_type, [])
+            except NotImplementedError:
+                self.raise_error(
+                    f"Dense arrays of element type {element_type} are not supported"
+                )
 
         self.parse_characters(":", " in dense array")
 
@@ -1119,7 +1124,12 @@ class AttrParser(BaseParser):
                 self.Delimiter.NONE,
                 lambda: self._parse_typed_integer(element_type, allow_boolean=True),
             )
-            res = DenseArrayBase.from_list(element_type, values)
+            try:
+                res = DenseArrayBase.from_list(element_type, values)
+            except NotImplementedError:
+                self.raise_error(
+                    f"Dense arrays of element type {element_type} are not supported"
+                )
         else:
             values = self.parse_comma_separated_list(
                 self.Delimiter.NONE,
@@ -1129,6 +1139,10 @@ class AttrParser(BaseParser):
                 res = DenseArrayBase.from_list(element_type, values)
             except OverflowError:
                 self.raise_error(f"Float value is too large for type {element_type}")
+            except NotImplementedError:
+                self.raise_error(
+                    f"Dense arrays of element type {element_type} are not supported"
+                )
 
         self.parse_characters(">", " in dense array")
 
